@@ -334,6 +334,21 @@ theorem python_same_signature_silent (pfx : Extra) (srcLoc dstLoc : List Char) (
   · exact hk.2 ((hmap.1 k).2 hk.1)
   · exact hk.2 ((hmap.1 k).1 hk.1)
 
+/-- **Python-%, `reorder_silent`**: two accepted strings without unnamed arguments whose named specifications `%(key)…`
+    carry the same (key, type) pairs — read in any order, any number of times — are never flagged.  `st.map` is the
+    `(key, conversion)` record list of the scanner (`_map_arguments` in insertion order). -/
+theorem python_reorder_silent (pfx : Extra) (srcLoc dstLoc : List Char) (omittedOk : Bool) {s s' : List Char}
+    {src dst : PyFmt.Result} (h : PyFmt.parse s = .ok src) (h' : PyFmt.parse s' = .ok dst)
+    (hseq : src.seq = [] ∧ dst.seq = []) {st st' : PyFmt.St}
+    (hl : PyFmt.loop true (s.length + 1) s [] PyFmt.St.init = .ok st)
+    (hl' : PyFmt.loop true (s'.length + 1) s' [] PyFmt.St.init = .ok st')
+    (hsame : ∀ k t, (∃ e, (k, e) ∈ st.map ∧ e.type = t) ↔ (∃ e, (k, e) ∈ st'.map ∧ e.type = t)) :
+    checkArgsPython pfx srcLoc src dstLoc dst omittedOk = .ok [] := by
+  have hp : pyParse s = .ok src := by unfold pyParse; rw [h]
+  have hp' : pyParse s' = .ok dst := by unfold pyParse; rw [h']
+  exact python_same_signature_silent pfx srcLoc dstLoc omittedOk hp hp' (by simp [pySeq, hseq.1, hseq.2])
+    (sameNamed_of_logs h h' hl hl' hsame)
+
 /-- **Python-%, `check_args_nocrash`** -/
 theorem python_check_args_nocrash (pfx : Extra) (srcLoc dstLoc : List Char) (omittedOk : Bool) {s s' : List Char}
     {src dst : PyFmt.Result} (h : pyParse s = .ok src) (h' : pyParse s' = .ok dst) :
@@ -562,6 +577,38 @@ theorem c_reorder_silent_perm (pfx : Extra) (srcLoc dstLoc : List Char) (omitted
     obtain ⟨p, hp, hp1, hp2⟩ := hm.2 ⟨(j, e), he, rfl, rfl⟩
     exact ⟨p.2, by rw [← hp1]; exact hp, hp2⟩
 
+/-- **The statement's first sentence, for python-format.**  In a catalog with a usable charset declaration, a non-fuzzy,
+    non-plural python-format message whose `msgid` and (non-empty) `msgstr` are accepted reports exactly: the warnings about
+    `msgstr` as a string, and — never tolerant — the number-mismatch diagnostic iff the numbers of unnamed arguments differ, a
+    type-mismatch diagnostic per unnamed position / common key with different types, unknown-argument per key only in `msgstr`,
+    missing-argument per key only in `msgid`. -/
+theorem python_plain_message_iff (ctx : Ctx) (msg : Msg (List Char)) (fl : Flags) (hdom : InDomain ctx fl)
+    (hpl : msg.msgidPlural = none) (hforms : msg.msgstrPlural = []) {src dst : PyFmt.Result}
+    (h0 : pyParse msg.msgid = .ok src) (h1 : pyParse msg.msgstr = .ok dst) (hne : msg.msgstr ≠ []) :
+    ∃ tags, checkMessage pyBackend ctx msg fl = .ok tags ∧
+      ∀ t, t ∈ tags ↔
+        t ∈ dst.warnings.map (pyWarnTag msg.pfx) ∨
+        (NumberDiffers (pySeq src) (pySeq dst) ∧ t = pyNumberTag msg.pfx "msgid".toList src "msgstr".toList dst) ∨
+        (∃ i a b, TypeDiffAt (pySeq src) (pySeq dst) i a b ∧ t = pyTypeTag msg.pfx "msgid".toList "msgstr".toList (a, b)) ∨
+        (∃ k a b, TypeDiffKey (· = ·) (pyNamed src) (pyNamed dst) k a b ∧ t = pyTypeTag msg.pfx "msgid".toList "msgstr".toList (a, b)) ∨
+        (∃ k, Unknown (pyNamed src) (pyNamed dst) k ∧ t = pyUnknownTag msg.pfx "msgid".toList "msgstr".toList k) ∨
+        (∃ k, Missing (pyNamed src) (pyNamed dst) k ∧ t = pyMissingTag msg.pfx "msgid".toList "msgstr".toList k) := by
+  obtain ⟨atags, hargs, hiff⟩ := python_args_tags_iff msg.pfx "msgid".toList "msgstr".toList false h0 h1
+  have ht : pyBackend.truthy msg.msgstr = true := by
+    show (!msg.msgstr.isEmpty) = true
+    cases hm : msg.msgstr with
+    | nil => exact absurd hm hne
+    | cons _ _ => rfl
+  have hmsg := plain_message pyBackend ctx msg fl hdom hpl hforms src dst h0 ht h1 atags hargs
+  refine ⟨_, hmsg, fun t => ?_⟩
+  have hck : pyBackend.checkMsgids msg.repr (some src) = [] := rfl
+  have hok : pyBackend.okTags false false msg.pfx msg.repr dst = dst.warnings.map (pyWarnTag msg.pfx) := by
+    show pyOkTags false false msg.pfx msg.repr dst = _
+    simp [pyOkTags]
+  rw [hck, hok, List.nil_append, List.mem_append, hiff t]
+  have htol : pyTolerated src dst false = false := by simp [pyTolerated, mapTolerated]
+  simp only [htol, true_and]
+
 /-- **python-brace / perl-brace: a non-plural message of the domain reports exactly the argument diagnostics** (these two
     checkers have no warnings and no `check_msgids`) -/
 theorem pybrace_plain_message (ctx : Ctx) (msg : Msg (BraceStr PyBraceSig)) (fl : Flags) (hdom : InDomain ctx fl)
@@ -757,6 +804,13 @@ example : (match cParse "%s %*d".toList with | .ok f => getLastIntConv f 3 | _ =
 example : (checkArgsPyBrace pfx0 "msgid".toList ⟨[(.idx 0, [⟨true, true, true⟩]), (.name "foo".toList, [⟨true, true, true⟩])], 3⟩
     "msgstr".toList ⟨[], 1⟩ false).map (fun (ts : List TagCall) => ts.map TagCall.name) =
     .ok ["python-brace-format-string-missing-argument", "python-brace-format-string-missing-argument"] := by rfl
+/-- Python-%: named arguments in another order are silent; a renamed key gives one unknown and one missing argument -/
+example : (match pyParse "%(n)d of %(name)s".toList, pyParse "%(name)s: %(n)d".toList with
+    | .ok a, .ok c => checkArgsPython pfx0 "msgid".toList a "msgstr".toList c false
+    | _, _ => .error .ValueError) = .ok [] := by rfl
+example : (match pyParse "%(n)d of %(name)s".toList, pyParse "%(nom)s: %(n)d".toList with
+    | .ok a, .ok c => (checkArgsPython pfx0 "msgid".toList a "msgstr".toList c false).map (fun (ts : List TagCall) => ts.map TagCall.name)
+    | _, _ => .error .ValueError) = .ok ["python-format-string-unknown-argument", "python-format-string-missing-argument"] := by rfl
 /-- the cascade -/
 example : (pluralPlan cBackend none none 0 default [1]).srcLoc = "msgid".toList := by rfl
 example : (pluralPlan cBackend none none 0 default [0, 7]).omittedOk = true := by rfl
